@@ -3038,6 +3038,29 @@ def _set_bang_to_py_ast(
 
     val_ast = gen_py_ast(ctx, node.val)
 
+    # In an expression position the assigned value is also the value of the `set!`
+    # form, so it is evaluated once into a temporary which both the assignment and
+    # the enclosing expression read.
+    val_node: ast.expr
+    val_deps: list[PyASTNode]
+    if node.env.pos == NodeSyntacticPosition.EXPR:
+        val_temp_name = genname(_SET_BANG_TEMP_PREFIX)
+        val_node = ast.Name(id=val_temp_name, ctx=ast.Load())
+        val_deps = list(
+            chain(
+                val_ast.dependencies,
+                [
+                    ast.Assign(
+                        targets=[ast.Name(id=val_temp_name, ctx=ast.Store())],
+                        value=val_ast.node,
+                    )
+                ],
+            )
+        )
+    else:
+        val_node = val_ast.node
+        val_deps = list(val_ast.dependencies)
+
     target = node.target
     assert isinstance(
         target, (HostField, Local, VarRef)
@@ -3046,7 +3069,7 @@ def _set_bang_to_py_ast(
     assign_ast: list[PyASTNode]
     if isinstance(target, HostField):
         target_ast = _interop_prop_to_py_ast(ctx, target, is_assigning=True)
-        assign_ast = [ast.Assign(targets=[target_ast.node], value=val_ast.node)]
+        assign_ast = [ast.Assign(targets=[target_ast.node], value=val_node)]
     elif isinstance(target, VarRef):
         # This is a bit of a hack to force the generator to generate code for accessing
         # a Var directly so we can store a temp reference to that Var rather than
@@ -3091,44 +3114,23 @@ def _set_bang_to_py_ast(
                 )
             ),
         )
-        assign_ast = [ast.Call(func=target_ast.node, args=[val_ast.node], keywords=[])]
+        assign_ast = [ast.Call(func=target_ast.node, args=[val_node], keywords=[])]
     elif isinstance(target, Local):
         target_ast = _local_sym_to_py_ast(ctx, target, is_assigning=True)
-        assign_ast = [ast.Assign(targets=[target_ast.node], value=val_ast.node)]
+        assign_ast = [ast.Assign(targets=[target_ast.node], value=val_node)]
     else:  # pragma: no cover
         raise ctx.GeneratorException(
             f"invalid set! target type {type(target)}", lisp_ast=target
         )
 
-    if node.env.pos == NodeSyntacticPosition.EXPR:
-        val_temp_name = genname(_SET_BANG_TEMP_PREFIX)
-        return GeneratedPyAST(
-            node=ast.Name(id=val_temp_name, ctx=ast.Load()),
-            dependencies=list(
-                chain(
-                    val_ast.dependencies,
-                    [
-                        ast.Assign(
-                            targets=[ast.Name(id=val_temp_name, ctx=ast.Store())],
-                            value=val_ast.node,
-                        )
-                    ],
-                    target_ast.dependencies,
-                    assign_ast,
-                )
-            ),
-        )
-    else:
-        return GeneratedPyAST(
-            node=_noop_node(),
-            dependencies=list(
-                chain(
-                    val_ast.dependencies,
-                    target_ast.dependencies,
-                    assign_ast,
-                )
-            ),
-        )
+    return GeneratedPyAST(
+        node=(
+            val_node
+            if node.env.pos == NodeSyntacticPosition.EXPR
+            else _noop_node()
+        ),
+        dependencies=list(chain(val_deps, target_ast.dependencies, assign_ast)),
+    )
 
 
 @_with_ast_loc_deps
